@@ -108,5 +108,17 @@ claim("C15",
   "Not decided: races inside the kernel's ptrace state machine, behaviour of a user-supplied Handler, memory exhaustion. Assumptions: os.Getpagesize() > 0; process_vm_readv returns 0 ≤ n ≤ requested; strings.LastIndex returns an index < len.",
   "DESIGN.md §4 C15")
 
+claim("C10",
+  "extraction of two communicating finite-state machines from SSA (interprocedural conditional constant propagation over message contents, callback closure inlined, forkexec.Start replaced by its launch summary) and exhaustive reachability over their product with FIFO queues; who-may-block and guarded-dereference rules",
+  "Decides, for every finite sequence of environment operations and every interleaving of cancel / child exit / kill / reply inside Execve (including Start failing before, at, and AFTER the sync callback): the container never terminates on a protocol error, no reply is left queued when a call returns, no call returns while the container still waits inside it, no deadlock, bounded queues — by exhaustive exploration of the product automaton (≈6k states today). Plus: every blocking operation of the host observes 'done', unknown commands terminate as documented, request-controlled dereferences are guarded, methods are serialised by the environment mutex.",
+  "Not decided: gob encoding fidelity (C19), real-time behaviour of Ping's deadline, scheduler fairness of select. Model assumptions: messages are abstracted to their kind (command constant; reply = ack/err/sync/result/batch by nil-ness of Error/ExecReply/Cred); branches on request contents are explored both ways; loops are unrolled at most twice; transport stays up inside the product (loss is covered by the who-may-block rule).",
+  "DESIGN.md §2 E2, §4 C10")
+
+claim("C11",
+  "structural canceller rules (goroutine / select-arm with kill reached), const/dataflow rule on the kill targets, conditional constant propagation for the vanished-tracee rule, call-order rule on Destroy, who-may-block",
+  "Decides the necessary conditions of prompt, truthful cancellation: a context watcher (derived context, started before the wait) that kills the process group AND the pid; the host's ctx arm sends kill then collects the result, the container's started state turns kill into kill(-1); no verdict derives from ctx.Err(); ESRCH under the kill is not a runner/policy verdict and the compared errors are unwrapped; Destroy closes the socket before taking the mutex, then kills and reaps; every blocking host operation observes 'done'.",
+  "Not decided: 'within bounded time' (timing/liveness); the container-side launch phase is not interruptible by the context; duration of a user-supplied SyncFunc. SIGKILL→TLE itself is decided by C09.",
+  "DESIGN.md §4 C11")
+
 for pid in [p for p in ["C%02d"%i for i in range(1,21)] if p not in CLAIMS]:
     na(pid, "check under construction in this session (design in DESIGN.md section 4); not yet claimed")
